@@ -27,7 +27,7 @@ META = {
     "level": "proof",
     "technique": "Coq theorem over an abstract disk/effect model (every crash index and torn flag of any step, by frame lemmas over the effect list) + effect-trace correspondence and exhaustive fault injection (process death at every file-system effect, torn writes) against the real program with restart and continuation",
     "text": "Unbounded theorem: for every disk consistent with its restart record, every step description (any number of new paths and deletions, accepted or rejected) satisfying the stated side conditions, EVERY crash index and torn flag: the restart reads the old or the new record, every path it lists is complete on disk, no effect prefix touches a file of a path the on-disk record lists, and the rows kept are those of before the step (old record; the step is redone) or those plus one row per replaced path (new record): after continuing every replaced path has exactly one row. The original code (in-place rewrite of restart.toml, no trimming) is refuted at two crash points. Tie: the logged effects of real treat_output calls equal the model's effect list; the side conditions are evaluated on the real steps; the real program is killed at every effect index (and half-way through every write) of steps of several kinds (shooting, wire fencing, zero swap, rejected, delete_old, delete_old_all, two workers), restarted and continued, and record/rows found are compared with the model; double crashes in the thorough tier.",
-    "note": "Trusted: Coq kernel; extraction + OCaml driver; py/crash_harness.py (patches builtins.open, os.remove/rmdir/rename/replace/makedirs/mkdir, shutil.move/copy; a crash is a BaseException raised at the effect, writes are torn at half of the bytes of one write call). POSIX semantics of rename/append/truncate and loss of page-cache contents on power failure are NOT modelled: a crash is process death. Worker processes are not crashed (jobs run in-process). The abstraction of the log (consecutive mkdir/rmdir collapsed, open+writes of one file = one write effect, move+rename = one atomic move) is part of the harness.",
+    "note": "Trusted: Coq kernel; extraction + OCaml driver; py/crash_harness.py (patches builtins.open, os.remove/rmdir/rename/replace/makedirs/mkdir, shutil.move/copy; a crash is a BaseException raised at the effect, writes are torn at half of the bytes of one write call; in the second, 'buffered' mode written data reaches the disk only when the file is flushed or closed, that flush is the tearable effect and a file still open at the crash loses its buffer). POSIX semantics of rename/append/truncate and loss of page-cache contents on power failure are NOT modelled: a crash is process death. Worker processes are not crashed (jobs run in-process). The abstraction of the log (consecutive mkdir/rmdir collapsed, open+writes of one file = one write effect, move+rename = one atomic move) is part of the harness.",
     "design_ref": "4/C08",
 }
 LEVEL = "proof"
@@ -341,8 +341,19 @@ def run(ctx):
                 if kind.startswith("write"):
                     cases.append(dict(setup=setup, which=which, crash_at=ridx, torn=True, schedule=sched))
                     cmeta.append((base, mi, 1 if tear else 0, info))
+    # buffered writes: what a process writes reaches the disk when the file is flushed or closed (the
+    # flush is the effect; a file still open at the crash loses its buffer).  Oracle only.
+    for (setup, which, sched), (tag, info) in zip(dry_args, dres):
+        if tag != "ok" or "after" not in info:
+            continue
+        n_open = sum(1 for _, kind, _ in info["log"] if kind.startswith("open"))
+        n_write = sum(1 for _, kind, _ in info["log"] if kind.startswith("write"))
+        for idx in range(len(info["log"]) - n_write + n_open + 1):
+            for torn in (False, True):
+                cases.append(dict(setup=setup, which=which, crash_at=idx, torn=torn, schedule=sched, buffered=True))
+                cmeta.append(None)
     # sample when too many
-    cap = 1500 if quick else 12000
+    cap = 2500 if quick else 16000
     if len(cases) > cap:
         keep = sorted(rng.sample(range(len(cases)), cap))
         cases = [cases[i] for i in keep]
@@ -369,9 +380,9 @@ def run(ctx):
         if tag != "ok":
             ctx.violation(f"harness failure on crash case: {str(r)[:300]}", {"case": case, "error": str(r)}, found_input=False)
             continue
-        ctx.count(("crash", repr(case["setup"]), case["which"], case["crash_at"], case["torn"], repr(case.get("second"))),
+        ctx.count(("crash", repr(case["setup"]), case["which"], case["crash_at"], case["torn"], case.get("buffered", False), repr(case.get("second"))),
                   nontrivial=not r["info"].get("no_crash"))
-        ctx.dist("crash:" + ("none" if r["info"].get("no_crash") else (r["info"]["crashed_effect"][1].split(":")[0] if r["info"].get("crashed_effect") else "?")))
+        ctx.dist(("bcrash:" if case.get("buffered") else "crash:") + ("none" if r["info"].get("no_crash") else (r["info"]["crashed_effect"][1].split(":")[0] if r["info"].get("crashed_effect") else "?")))
         mine = [p for cat, p in r["problems"] if cat == "C08"]
         harness = [p for cat, p in r["problems"] if cat == "harness"]
         if harness and nbad < 6:
